@@ -111,14 +111,34 @@ def build_proofs(ctx, mod):
 def check(ctx, mod, replay):
     prop = ctx.prop
     common.snapshot(ctx)
+    want = None
     if replay:
-        data = json.load(open(replay))
+        # a replay re-runs the check that wrote the file (same tier, same PRNG seed: the generators then produce the same
+        # inputs) on /repo's CURRENT tree and says whether the recorded violation is still there
+        want = json.load(open(replay))
         if hasattr(mod, "replay"):
-            return mod.replay(ctx, data)
-        print(json.dumps(data, indent=1))
-        return 0
+            return mod.replay(ctx, want)
+        ctx.tier = want.get("tier", ctx.tier)
+        ctx.seed = int(want.get("seed", ctx.seed))
+        os.environ["VERIF_TIER"] = ctx.tier
     proof = build_proofs(ctx, mod)
     res = mod.run(ctx, proof)
+    if want is not None:
+        sigs = [f["sig"] for f in res.get("oracle_failures", [])]
+        broken_now = (not proof["ok"]) or bool(res.get("corr_failures")) or bool(res.get("errors"))
+        if want.get("kind") == "failing-input":
+            hit = [f for f in res.get("oracle_failures", []) if f["sig"] == want.get("sig")]
+            print("replay of %s (%s, tier %s, seed %s): %s" % (os.path.basename(replay), want.get("sig"), ctx.tier, ctx.seed,
+                  "REPRODUCED -- %s" % hit[0]["what"][:300] if hit else "not reproduced on the current tree (%d other failures)" % len(sigs)))
+            if hit:
+                print("VIOLATION property=%s replay=%s" % (prop, replay))
+            return 1 if hit else 0
+        print("replay of %s (no failing input was recorded; what no longer checked: %s): %s" % (
+            os.path.basename(replay), "; ".join(str(b.get("kind")) for b in want.get("no_longer_checks", []))[:200],
+            "STILL BROKEN" if broken_now else "everything checks on the current tree"))
+        if broken_now:
+            print("VIOLATION property=%s replay=%s no-failing-input-found" % (prop, replay))
+        return 1 if broken_now else 0
     known = [k for k in common.load_known() if k.get("property") == prop and k.get("status") == "open"]
     known_sigs = {k["sig"]: k for k in known}
     violations = 0
@@ -141,8 +161,8 @@ def check(ctx, mod, replay):
             break
         rp = write_replay(prop, "v%d" % len(reported), {
             "property": prop, "kind": "failing-input", "sig": f["sig"], "what": f["what"],
-            "input": f.get("replay"), "rerun": "cd /verif && bin/check %s --tier %s" % (prop, ctx.tier),
-            "snapshot_hash": ctx.snap_hash})
+            "input": f.get("replay"), "rerun": "cd /verif && VERIF_SEED=%d bin/check %s --tier %s" % (ctx.seed, prop, ctx.tier),
+            "tier": ctx.tier, "seed": ctx.seed, "snapshot_hash": ctx.snap_hash})
         lines.append("VIOLATION property=%s replay=%s" % (prop, rp))
         violations += 1
     broken = []
@@ -162,10 +182,10 @@ def check(ctx, mod, replay):
             f = extra[0]
             rp = write_replay(prop, "v1", {"property": prop, "kind": "failing-input", "sig": f["sig"],
                                            "what": f["what"], "input": f.get("replay"), "broken": broken[:3],
-                                           "snapshot_hash": ctx.snap_hash})
+                                           "tier": ctx.tier, "seed": ctx.seed, "snapshot_hash": ctx.snap_hash})
             lines.append("VIOLATION property=%s replay=%s" % (prop, rp))
         else:
-            rp = write_replay(prop, "unproved", {"property": prop, "kind": "no-failing-input-found",
+            rp = write_replay(prop, "unproved", {"property": prop, "kind": "no-failing-input-found", "tier": ctx.tier, "seed": ctx.seed,
                                                  "no_longer_checks": broken[:6], "snapshot_hash": ctx.snap_hash})
             lines.append("VIOLATION property=%s replay=%s no-failing-input-found" % (prop, rp))
         violations += 1
